@@ -205,17 +205,7 @@ func (txn *Txn) Route(method, pattern string) *Route {
 		panic(ErrSettledTxn)
 	}
 
-	tree := txn.rootTxn.tree
-	c := tree.ctx.Get().(*cTx)
-	c.resetNil()
-
-	host, path := SplitHostPath(pattern)
-	n, tsr := txn.rootTxn.root.lookup(tree, method, host, path, c, true)
-	tree.ctx.Put(c)
-	if n != nil && !tsr && n.route.pattern == pattern {
-		return n.route
-	}
-	return nil
+	return txn.rootTxn.root.route(method, pattern)
 }
 
 // Reverse perform a reverse lookup for the given method, host and path and return the matching registered [Route]
